@@ -664,50 +664,39 @@ theorem flat_in_grid (sqref : List Char) (cells : List Cell) (h : flatSqref sqre
     obtain ⟨_, _, _, _, _, _, _, _, _, _, _, _, b1, b2, _, b3, b4⟩ := hB
     omega
 
-/-- **exact acceptance of `flatSqref`** (as transcribed): it accepts a sequence iff
-every white-space separated reference is a strict A1 cell, a strict `cell:cell`
-range — or has three or more `:`-separated parts, in which case it is silently
-skipped (the `switch len(rng)` has no default case). -/
+/-- **exact acceptance of `flatSqref`, full strength** (after the repair of
+`sqref:accept-non-ref:skipped-multi-colon`): it accepts a sequence iff EVERY
+white-space separated reference is a strict A1 cell or a strict `cell:cell` range. -/
 theorem flat_accepts_iff (sqref : List Char) :
     (∃ cells, flatSqref sqref = .ok cells) ↔
-      ∀ ref ∈ fields sqref, (∃ c r, parseA1 ref = some (c, r)) ∨
-        (∃ q, parseRangeStrict ref = some q) ∨ 3 ≤ (splitColon ref).length := by
+      ∀ ref ∈ fields sqref, (∃ c r, parseA1 ref = some (c, r)) ∨ (∃ q, parseRangeStrict ref = some q) := by
   unfold flatSqref
   rw [flatRefs_ok_iff]
   constructor
   · intro h ref hr; exact (flatRef_ok_iff ref).mp (h ref hr)
   · intro h ref hr; exact (flatRef_ok_iff ref).mpr (h ref hr)
 
-/-- what is true (`…_partial`: the missing hypothesis is "no reference of the sequence
-has more than one colon"): then `flatSqref` accepts iff every reference is a strict
-cell or a strict range. -/
-theorem flat_strict_partial (sqref : List Char)
-    (hno : ∀ ref ∈ fields sqref, (splitColon ref).length ≤ 2) :
-    (∃ cells, flatSqref sqref = .ok cells) ↔
-      ∀ ref ∈ fields sqref, (∃ c r, parseA1 ref = some (c, r)) ∨ (∃ q, parseRangeStrict ref = some q) := by
-  rw [flat_accepts_iff]
-  constructor
-  · intro h ref hr
-    rcases h ref hr with a | a | a
-    · exact Or.inl a
-    · exact Or.inr a
-    · have := hno ref hr; omega
-  · intro h ref hr
-    rcases h ref hr with a | a
-    · exact Or.inl a
-    · exact Or.inr (Or.inl a)
+/-- hence an accepted sequence denotes a cell through each of its references:
+nothing is ignored (every reference contributes at least its first corner) -/
+theorem flat_nothing_ignored (sqref : List Char) (cells : List Cell) (h : flatSqref sqref = .ok cells)
+    (ref : List Char) (hr : ref ∈ fields sqref) : ∃ p ∈ cells, refHas ref p := by
+  rcases (flat_accepts_iff sqref).mp ⟨cells, h⟩ ref hr with ⟨c, r, hp⟩ | ⟨⟨c1, r1, c2, r2⟩, hq⟩
+  · have hh : refHas ref ((c : Int), (r : Int)) := Or.inl ⟨c, r, hp, rfl⟩
+    exact ⟨_, (flat_denotes sqref cells h _).mpr ⟨ref, hr, hh⟩, hh⟩
+  · have hh : refHas ref ((c1 : Int), (r1 : Int)) :=
+      Or.inr ⟨c1, r1, c2, r2, hq, by simp only []; omega, by simp only []; omega,
+        by simp only []; omega, by simp only []; omega⟩
+    exact ⟨_, (flat_denotes sqref cells h _).mpr ⟨ref, hr, hh⟩, hh⟩
 
-/-- **finding (open)**: `flatSqref` does not reject a reference with two or more
-colons, it ignores it: `flatSqref("A1:B2:C3")` and `flatSqref("x:y:z")` return no
-cells and no error (while `"junk"` is an error). Through the public API:
-`DeleteDataValidation("Sheet1", "x:y:z")` returns nil and deletes nothing. Oracle
-signature `sqref:accept-non-ref:skipped-multi-colon`. -/
-theorem finding_flat_skips_multi_colon :
-    flatSqref ['A', '1', ':', 'B', '2', ':', 'C', '3'] = .ok [] ∧
-    flatSqref ['x', ':', 'y', ':', 'z'] = .ok [] ∧
-    flatSqref ['A', '1', ' ', 'x', ':', 'y', ':', 'z'] = .ok [(1, 1)] ∧
-    (∃ e, flatSqref ['j', 'u', 'n', 'k'] = .error e) := by
-  refine ⟨by decide +kernel, by decide +kernel, by decide +kernel, ⟨.cellName, by decide +kernel⟩⟩
+/-- regression witnesses (literals) for the repaired finding: a reference with two or
+more colons is rejected, alone or inside a sequence -/
+theorem flat_reject_witnesses :
+    (∃ e, flatSqref ['A', '1', ':', 'B', '2', ':', 'C', '3'] = .error e) ∧
+    (∃ e, flatSqref ['x', ':', 'y', ':', 'z'] = .error e) ∧
+    (∃ e, flatSqref ['A', '1', ' ', 'x', ':', 'y', ':', 'z'] = .error e) ∧
+    flatSqref ['A', '1', ' ', 'B', '2', ':', 'A', '2'] = .ok [(1, 1), (1, 2), (2, 2)] := by
+  refine ⟨⟨.param, by decide +kernel⟩, ⟨.param, by decide +kernel⟩, ⟨.param, by decide +kernel⟩,
+    by decide +kernel⟩
 
 /-- **`squashSqref` preserves the denotation** (coordinate level): for the cells of
 one column in strictly ascending row order — what `flatSqref` yields per column for
